@@ -131,3 +131,5 @@ def sl_facts(a, lo, hi):
     """ground instances of the array-indexed axioms of sl (quantifying over arrays makes every solver give up)"""
     t = sl(a, lo, hi)
     return [z3.Implies(lo <= hi, slen(t) == hi - lo), z3.Implies(lo == hi, t == sempty), z3.Implies(hi == lo + 1, t == sbyte(z3.Select(a, lo)))]
+
+PROD = z3.Function('prod', I, I, I)     # abstracted product of two non-constant integers (nonlinear abstraction)
